@@ -1,10 +1,10 @@
 SPECIFICATION Spec
-CONSTANTS MaxSize = 8
- MaxSteps = 3
- NV = 3
+CONSTANTS MaxSize = 1
+ MaxSteps = 0
+ NV = 4
  MaxAtoms = 4
- AtomKinds = {"A", "L", "F", "P", "B", "M"}
- LongKinds = {"A", "L"}
+ AtomKinds = {"A", "L"}
+ LongKinds = {"A", "L", "E"}
  Variants <- VariantsQuick
  ExactOccursCheck = TRUE
  AnnotVarCheck = TRUE
